@@ -446,6 +446,43 @@ func checkC13(c *core.Ctx, r *core.Report) {
 	}
 	for _, fname := range []string{"AddAliases", "RemoveAliases"} {
 		fn := c.Fn(pkgVTable, fname)
+		// the entry point may only forward (a ...WithCount / ...WithOptions variant holds the body): the clause
+		// then applies to the one function of the package it calls that changes an alias file
+		{
+			own := false
+			for _, ci := range core.CallsIn(fn) {
+				if fileChange.isChange(ci) {
+					own = true
+				}
+			}
+			if !own {
+				var cands []*ssa.Function
+				for _, ci := range core.CallsIn(fn) {
+					h := ci.Common().StaticCallee()
+					if h == nil || h.Blocks == nil || h.Parent() != nil || core.FnPkgPath(h) != core.FnPkgPath(fn) {
+						continue
+					}
+					changes := false
+					for _, cj := range core.CallsIn(h) {
+						if fileChange.isChange(cj) {
+							changes = true
+						}
+					}
+					dup := false
+					for _, x := range cands {
+						if x == h {
+							dup = true
+						}
+					}
+					if changes && !dup {
+						cands = append(cands, h)
+					}
+				}
+				if len(cands) == 1 {
+					fn = cands[0]
+				}
+			}
+		}
 		construct := fmt.Sprintf("%s:alias-file-change-implies-in-memory-change", shortFn(fn))
 		isMem := func(in ssa.Instruction) bool {
 			if touchesMapDeep(in, aliasMap) {
